@@ -106,10 +106,13 @@ class FS:
         ex = self.exists(name)
         if "x" in mode and ex:
             raise FileExistsError(17, "File exists", name)
-        if "w" in mode or "x" in mode:
+        if "w" in mode or "x" in mode or "a" in mode:
             self.opened.append((name, mode, ex and name not in self.created))
+            f = FakeFile(self, name, "b" in mode)
+            if "a" in mode and name in self.content:
+                f.parts = list(self.content[name])       # appending keeps what was there
             self.created.add(name)
-            return FakeFile(self, name, "b" in mode)
+            return f
         raise AssertionError("unexpected open mode " + mode)
 
 
@@ -169,7 +172,7 @@ class FP:
     def __fspath__(self):
         return self.s
 
-    def open(self, mode="r"):
+    def open(self, mode="r", buffering=-1, encoding=None, errors=None, newline=None):
         return self.fs.open(self.s, mode)
 
     def __str__(self):
@@ -217,6 +220,9 @@ class FakeLogging:
 
     def _rec(self, msg, *a):
         LOGGED.append(str(msg))
+        fh = CURRENT.get("logfile")
+        if fh is not None:
+            fh.write(str(msg) + "\\n")
 
     debug = info = warning = error = critical = _rec
 
@@ -227,12 +233,36 @@ P2A.logging = FakeLogging()
 def run_cli(fs, asm_file, prtxt_file, out_name, clobber, write_log):
     del ECHO[:]
     del LOGGED[:]
+    CURRENT.pop("logfile", None)
     code = None
     try:
         P2A.cli.callback(Path(TMP) / asm_file, Path(TMP) / prtxt_file, FP(fs, "/out/" + out_name), "SUPER_", clobber, "INFO", write_log)
     except SystemExit as e:
         code = e.code if e.code is not None else 0
     return code, list(LOGGED) + list(ECHO)
+
+
+def snapshot_fs(fs):
+    return {n: b"".join(p if isinstance(p, bytes) else str(p).encode() for p in parts) for n, parts in fs.content.items()}
+
+
+def rerun_identical(case: int) -> bool:
+    """
+    pre: 0 <= case <= 2
+    post: _
+    """
+    # C17: running again on the same inputs (same output template, default --clobber, log on) gives
+    # byte-identical output files, whatever an earlier run in the same process left behind
+    START()
+    a, p, o = [("in.tpf", "multi.agp", "spec.1.tpf"), ("in.fa", "one.agp", "spec.2.fa"), ("in.tpf", "one.agp", "spec.agp")][0 if case == 0 else (1 if case == 1 else 2)]
+    fs = FS({})
+    c1, _ = run_cli(fs, a, p, o, True, True)
+    s1 = snapshot_fs(fs)
+    # an unrelated run in between (different inputs, other output name)
+    run_cli(FS({}), "in.tpf", "one.agp", "other.tpf", True, False)
+    c2, _ = run_cli(fs, a, p, o, True, True)
+    s2 = snapshot_fs(fs)
+    return FIN(c1 is None and c2 is None and s1 == s2 and len(s1) >= 5)
 
 
 def planned(asm_file, prtxt_file, out_name):
